@@ -130,6 +130,8 @@ pub enum Step {
     RaceResume(u8, u16),
     /// a new client connects and immediately sends a statement
     Arrive,
+    /// client c sends two autocommit statements in one write; PAUSE db is issued while the first is still running
+    PipelinedAcrossPause(u8),
 }
 
 #[derive(Clone, Debug, Serialize, Deserialize)]
@@ -154,7 +156,7 @@ impl Part for WirePart {
         true
     }
     fn rule(&self) -> String {
-        "two pools (db with 2..5 clients, db2 with one control client), histories of 4..16 steps over {autocommit statement, BEGIN, COMMIT, PAUSE / RESUME for all pools or for db only, a new statement raced against RESUME with a generated 0..4000 µs gap, a newly arriving client}, wait_paused jitter hook 0/1/3 ms, worker_threads 1/2/4. Oracle: a transaction whose first message is sent after the PAUSE reply is not received by any backend until RESUME has been sent (transactions already open keep running and COMMIT), the unpaused pool keeps answering, and after the RESUME reply every held statement completes. Non-trivial = RESUME issued while at least one client was held".into()
+        "two pools (db with 2..5 clients, db2 with one control client), histories of 4..16 steps over {autocommit statement, BEGIN, COMMIT, PAUSE / RESUME for all pools or for db only, a new statement raced against RESUME with a generated 0..4000 µs gap, a newly arriving client, two pipelined autocommit statements with PAUSE arriving while the first runs}, wait_paused jitter hook 0/1/3 ms, worker_threads 1/2/4. Oracle: a transaction whose first message is sent after the PAUSE reply is not received by any backend until RESUME has been sent (transactions already open keep running and COMMIT), the unpaused pool keeps answering, and after the RESUME reply every held statement completes. Non-trivial = RESUME issued while at least one client was held".into()
     }
     fn cases(&self, tier: Tier) -> u64 {
         tier.pick(1_200, 16_000)
@@ -168,6 +170,7 @@ impl Part for WirePart {
             2 => any::<bool>().prop_map(Step::Resume),
             3 => ((0u8..6), prop_oneof![Just(0u16), 1u16..400, 400u16..4000]).prop_map(|(c, d)| Step::RaceResume(c, d)),
             1 => Just(Step::Arrive),
+            1 => (0u8..6).prop_map(Step::PipelinedAcrossPause),
         ];
         (2u8..=5, prop_oneof![2 => Just(0u32), 2 => Just(1000u32), 1 => Just(3000u32)], prop_oneof![Just(1u8), Just(2u8), Just(4u8)], prop::collection::vec(step, 4..17))
             .prop_map(|(clients, jitter_us, workers, steps)| WireCase { clients, jitter_us, workers, steps })
@@ -312,6 +315,38 @@ async fn run_wire(c: &WireCase, ctx: &mut WorkerCtx) -> Outcome {
                         break;
                     }
                 }
+            }
+            Step::PipelinedAcrossPause(k) => {
+                let i = *k as usize % n;
+                if paused_db || in_txn[i] || held.iter().any(|(h, _)| *h == i) {
+                    continue;
+                }
+                let (t1, t2) = (clis[i].tag(), clis[i].tag());
+                let mut b = proto::query(&format!("{} SELECT v FROM t /*@ hold */", t1.render()));
+                b.extend_from_slice(&proto::query(&format!("{} SELECT v FROM t", t2.render())));
+                clis[i].send(&b).await;
+                if env.shared.wait_tag(t1, wire::T_REPLY).await.is_none() {
+                    o.inconclusive = Some("first pipelined statement never reached the backend".into());
+                    break;
+                }
+                let (m, e) = admin.simple("PAUSE db,u", wire::T_REPLY).await;
+                if !matches!(e, ReadEnd::Ready(_)) || m.iter().any(|x| x.code == b'E') {
+                    fail_and_finish!("pause-command-failed", format!("PAUSE db,u -> {:?} {:?}", e, crate::cli::errors(&m)));
+                }
+                paused_db = true;
+                // the running transaction finishes normally ...
+                env.shared.release(t1);
+                let (_m, e) = clis[i].read_until_ready(wire::T_REPLY).await;
+                if !matches!(e, ReadEnd::Ready(_)) {
+                    fail_and_finish!("open-transaction-blocked-by-pause", format!("step {}: the statement of c{} that was running when PAUSE arrived ended {:?}", si, i + 1, e));
+                }
+                // ... and the next one, although its bytes were sent long ago, is a new transaction on a paused pool
+                tokio::time::sleep(Duration::from_millis(30)).await;
+                if tag_seen(&env, t2) {
+                    fail_and_finish!("transaction-started-while-paused", format!("step {}: the second pipelined statement {} of c{} reached a backend while the pool was paused", si, t2.short(), i + 1));
+                }
+                held.push((i, t2));
+                o.label("pipelined_across_pause");
             }
             Step::Pause(only_db) => {
                 let sql = if *only_db { "PAUSE db,u" } else { "PAUSE" };
